@@ -93,7 +93,7 @@ STORE_ASSUME = [
     "keys: pool of 2 concrete 1-byte keys; values: 1 symbolic byte; timestamps concrete 0; file ids < 8; files <= 32 bytes",
 ]
 
-SHAPES_NOTE = "operation shapes are concrete and enumerated (DESIGN.md section 9 (b)): S1 tombstone-on-disk + rollover on every write + reopen; S2 overwrite/delete/absent-delete/merge of the active file/write/reopen via hint; S3 older live file + newer tombstone-only file, merge selected by fragmentation 0.4, reopen; S4 merge output with hint on disk + older file, merge rolling over into several outputs, reopen; S5 selection by dead bytes, two merges, reopen; S7 empty directory, rollover on every write, put a / put b each read back at once; S6 older all-dead file + newer file with the tombstone selected by dead bytes, reopen. Symbolic within a shape: every value byte"
+SHAPES_NOTE = "operation shapes are concrete and enumerated (DESIGN.md section 9 (b)): S1 tombstone-on-disk + rollover on every write + reopen; S2 overwrite/delete/absent-delete/merge of the active file/write/reopen via hint; S3 older live file + newer tombstone-only file, merge selected by fragmentation 0.4, reopen; S4 merge output with hint on disk + older file, merge rolling over into several outputs, reopen; S5 selection by dead bytes, two merges, reopen; S8/S9 the two halves of S2 (S8: overwrite, absent delete, put, delete; S9: merge of the active file, write, reopen via hint); S7 empty directory, rollover on every write, put a / put b each read back at once; S6 older all-dead file + newer file with the tombstone selected by dead bytes, reopen. Symbolic within a shape: every value byte"
 
 
 # L level: the codec contract that every store-level harness assumes, decided for the REAL bincode on the
@@ -107,41 +107,43 @@ def _kills(prefix, ks, quick=()):
 
 def _shapes(prefix, which, tier_of=lambda i: "quick", timeout=1500, covers=None):
     covers = covers or {}
-    return [H("%s_shape_%d" % (prefix, i), tier=tier_of(i), timeout=timeout, rules=STORE_RULES, covers=covers.get(i, [])) for i in which]
+    # shape 2 (eight steps with reads after each) peaks above 14 GB while kani-driver parses CBMC's output
+    return [H("%s_shape_%d" % (prefix, i), tier=tier_of(i), timeout=timeout, rules=STORE_RULES, covers=covers.get(i, []), mem_gb=(28 if i == 2 else 14)) for i in which]
 
 
 PROPS.update({
     "C01": dict(crate="store", title="The store behaves as a key-value map for every operation sequence",
-                harnesses=_shapes("c01", [1, 2, 3, 4, 5, 6, 7], tier_of=lambda i: "quick" if i in (1, 2, 3, 7) else "thorough", covers={1: ["three rollovers"], 2: ["the merge wrote a hint entry"]}) + CODEC_CONTRACT,
+                harnesses=_shapes("c01", [1, 2, 3, 4, 5, 6, 7, 8, 9], tier_of=lambda i: "quick" if i in (1, 3, 7, 8, 9) else "thorough", covers={1: ["three rollovers"], 2: ["the merge wrote a hint entry"], 9: ["the merge wrote a hint entry"]}) + CODEC_CONTRACT,
                 bounds={"shapes": SHAPES_NOTE, "outside": "longer histories, more keys, longer keys/values, entries larger than the write buffer, real DashMap/LRU/mmap implementations, real bincode layout"},
                 assumptions=STORE_ASSUME),
     "C02": dict(crate="store", title="Closing and reopening a store preserves exactly its contents, deletions included",
-                harnesses=[H("c01_shape_1", timeout=1500, rules=STORE_RULES, covers=["three rollovers"]), H("c01_shape_2", timeout=1500, rules=STORE_RULES),
+                harnesses=[H("c01_shape_1", timeout=1500, rules=STORE_RULES, covers=["three rollovers"]), H("c01_shape_9", timeout=1500, rules=STORE_RULES),
+                           H("c01_shape_2", tier="thorough", timeout=1500, rules=STORE_RULES, mem_gb=28),
                            H("c01_shape_3", timeout=1500, rules=STORE_RULES), H("c01_shape_5", tier="thorough", timeout=1500, rules=STORE_RULES), H("c12_shape_4", tier="thorough", timeout=1500, rules=STORE_RULES)],
                 bounds={"shapes": SHAPES_NOTE + "; every shape ends with a reopen through the real rebuild_storage (scan path and hint path) and re-reads both keys", "outside": "two-digit file ids and foreign directory entries (name parsing is executed on single-digit ids only)"},
                 assumptions=STORE_ASSUME),
     "C05": dict(crate="store", title="Compaction never changes what any key reads, now or after a restart",
-                harnesses=_shapes("c01", [2, 3, 4, 5, 6], tier_of=lambda i: "quick" if i in (2, 3, 6) else "thorough", covers={2: ["the merge wrote a hint entry"], 6: ["the tombstone's file was merged"]}),
+                harnesses=_shapes("c01", [2, 3, 4, 5, 6, 9], tier_of=lambda i: "quick" if i in (3, 6, 9) else "thorough", covers={2: ["the merge wrote a hint entry"], 6: ["the tombstone's file was merged"], 9: ["the merge wrote a hint entry"]}),
                 bounds={"shapes": SHAPES_NOTE + "; merges selected by: everything (S2, S4), fragmentation > 0.4 (S3), dead bytes > 0 (S5), followed by reads and by a reopen", "outside": "thresholds are concrete per shape (a symbolic threshold makes the selected set symbolic and the run intractable - measured)"},
                 assumptions=STORE_ASSUME),
     "C12": dict(crate="store", title="Hint files are only an accelerator: recovery with or without them agrees",
                 harnesses=[H("c12_direct_4", timeout=1800, rules=STORE_RULES), H("c12_direct_2", timeout=1800, rules=STORE_RULES),
-                           H("c12_shape_6", timeout=1800, rules=STORE_RULES, covers=["a non-empty hint file existed"]),
+                           H("c12_shape_6", tier="thorough", timeout=2400, mem_gb=28, rules=STORE_RULES, covers=["a non-empty hint file existed"]),
                            H("c12_shape_5", tier="thorough", timeout=1800, rules=STORE_RULES, covers=["a non-empty hint file existed"]),
                            H("c12_shape_2", tier="thorough", timeout=2400, mem_gb=28, rules=STORE_RULES, covers=["a non-empty hint file existed"]),
                            H("c12_shape_4", tier="thorough", timeout=2400, mem_gb=28, rules=STORE_RULES, covers=["a non-empty hint file existed"])],
                 bounds={"shapes": SHAPES_NOTE + "; after the shape the index is rebuilt twice by the real rebuild_storage, as is and with every *.hint unlinked, and both pool keys are resolved through both; c12_direct_*: after every step every hint entry is checked against the data file of its id (shape 4: a merge rolling over into several output files)", "outside": "as C01"},
                 assumptions=STORE_ASSUME),
     "C13": dict(crate="store", title="Compaction actually reclaims space and never grows the store (REDUCED: a merge never increases the total data size)",
-                harnesses=_shapes("c14", [2, 3, 4, 5], tier_of=lambda i: "quick" if i in (2, 4) else "thorough"),
+                harnesses=_shapes("c14", [2, 3, 4, 5, 9], tier_of=lambda i: "quick" if i in (4, 9) else "thorough"),
                 bounds={"shapes": SHAPES_NOTE + "; total length of the linked *.data inodes compared before/after every real merge", "outside": "the 'exactly as large as a fresh store' and idempotence clauses are not decided"},
                 assumptions=STORE_ASSUME),
     "C14": dict(crate="store", title="Data files are append-only and immutable, with ids that only grow",
-                harnesses=_shapes("c14", [1, 2, 3, 4, 5], tier_of=lambda i: "quick" if i in (1, 2, 4) else "thorough"),
+                harnesses=_shapes("c14", [1, 2, 3, 4, 5, 9], tier_of=lambda i: "quick" if i in (1, 4, 9) else "thorough"),
                 bounds={"shapes": SHAPES_NOTE + "; the monitor inside the model file system is asserted after every step: exclusive create + append by the creator only, no rename/set_len/truncate/open-for-write, ids per kind strictly above every earlier id, no data file beyond max_file_size by more than one entry", "outside": "bytes-never-change is enforced by construction of the model (appends only)"},
                 assumptions=STORE_ASSUME),
     "C19": dict(crate="store", title="Per-file live/dead accounting always matches the files' real contents",
-                harnesses=_shapes("c19", [1, 2, 3, 4, 5, 6], tier_of=lambda i: "quick" if i in (1, 2, 3) else "thorough"),
+                harnesses=_shapes("c19", [1, 2, 3, 4, 5, 6, 8, 9], tier_of=lambda i: "quick" if i in (1, 3, 8, 9) else "thorough"),
                 bounds={"shapes": SHAPES_NOTE + "; after every step the real LogStatistics of every file are compared with ground truth computed by the harness from the file bytes and the real index; counter arithmetic is overflow-checked by Kani", "outside": "as C01"},
                 assumptions=STORE_ASSUME),
     "C03": dict(crate="store", title="A process crash at any instant loses no acknowledged write and corrupts nothing",
